@@ -11,6 +11,7 @@ import (
 	"sort"
 	"strconv"
 	"strings"
+	"time"
 )
 
 type mater struct {
@@ -28,6 +29,7 @@ type mater struct {
 	nq      int
 	err     string
 	strRev  map[int]string
+	start   time.Time
 }
 
 const maxMatObjects = 48
@@ -86,6 +88,13 @@ func (m *mater) query(terms []string, caps []string) []string {
 		return make([]string, len(terms))
 	}
 	m.nq++
+	if m.start.IsZero() {
+		m.start = time.Now()
+	}
+	if time.Since(m.start) > 40*time.Second {
+		m.fail("value extraction exceeded its 40 s budget")
+		return make([]string, len(terms))
+	}
 	if m.nq > 400 {
 		m.fail("model too large to materialise (more than 400 value queries)")
 		return make([]string, len(terms))
